@@ -1,9 +1,9 @@
 CHECKS = {
  'C12': dict(
   text='Retry middleware: bounded attempts, back-off, first success wins, error kept',
-  note='Coq model of retry.go + the backoff/v3 recurrence (Handler/Retry.v), 31 theorems over all configurations (incl. the unvalidated ones: Multiplier <= 0, negative intervals, Initial > Max) / handler scripts / clock-select oracles: '
+  note='Coq model of retry.go + the backoff/v3 recurrence (Handler/Retry.v), 39 theorems over all configurations (incl. the unvalidated ones: Multiplier <= 0, negative intervals, Initial > Max) / handler scripts / clock-select oracles: '
        'first success wins, attempt bound, error kept, hook sequence, back-off lower bound + closed form + truncation bound (geometric error sum) for any rational multiplier, '
-       'gives up only and timely on an ended context (zero back-off: select race, at most K lost under the fair-select contract, all-n-retries has exactly one of 2^n resolutions), N concurrent messages = N independent runs (interleaving theorem; shared-back-off variant refuted); coqchk: no axioms; '
+       'gives up only and timely on an ended context (zero back-off: select race, at most K lost under the fair-select contract, all-n-retries has exactly one of 2^n resolutions), N concurrent messages = N independent runs (interleaving theorem; shared-back-off variant refuted); coqchk: no axioms; composed with the Router (C02 handle): error => Nack and nothing published, success => outputs of the first successful attempt, Ack iff accepted; float64 incrementCurrentInterval = exact model for dyadic multipliers below 2^53 (rounding oracle), +-1 ns otherwise; logger handed the last error; '
        'real middleware.Retry driven with 1..6 messages through one wrapped handler (stand-alone, inside a Router, Router closed mid-back-off), compared with the model and judged by retry_monitor',
   technique='Coq proof about an executable model + correspondence check + executable monitor',
   design_ref='DESIGN.md §7 C12',
